@@ -52,38 +52,70 @@ static double oracle(void)
   return v;
 }
 
-/* leave-one-out worker contract + checks on what it is given */
+#ifdef VC_LAB
+static const size_t LAB[] = VC_LAB;      /* user-supplied fold labels (k-fold), one per object */
+#endif
+/* learner contract + checks on the operands the worker is started with (leave-one-out and k-fold share the worker type) */
 static void mon_create(void *(*fn)(void *), void *arg_)
 {
   loocv_th_arg *a = (loocv_th_arg *)arg_;
   workers++;
-  VC_CHECK("LOO worker entry matches the learner", fn == (VC_NLV ? PLSLOOModel_ : MLRLOOModel_));
-  VC_CHECK("LOO operand shapes: train (n-1) rows, test 1 row", a->x_train->row == VC_NOBJ - 1 && a->y_train->row == VC_NOBJ - 1 &&
-           a->x_test->row == 1 && a->y_test->row == 1 && a->x_train->col == VC_XC && a->y_train->col == VC_NY);
-  size_t id = (size_t)a->x_test->data[0][0];
-  VC_CHECK("held-out object is a valid object", id < VC_NOBJ);
-  if(id >= VC_NOBJ)
-    return;
-  VC_CHECK("every object is held out at most once", !seen[id]);
-  seen[id] = 1;
-  for(size_t k = 0; k < VC_XC; k++)
-    VC_CHECK("test x row is the held-out object's row", VC_SAME(a->x_test->data[0][k], xcell[id][k]));
-  for(size_t k = 0; k < VC_NY; k++)
-    VC_CHECK("test y row is the held-out object's response", VC_SAME(a->y_test->data[0][k], ycell[id][k]));
-  for(size_t l = 0; l + 1 < VC_NOBJ; l++) {
-    size_t src = l < id ? l : l + 1;
+  VC_CHECK("worker entry matches the learner", fn == (VC_NLV ? PLSLOOModel_ : MLRLOOModel_));
+  size_t ntest = a->x_test->row;
+  VC_CHECK("operand shapes: test and train parts together hold every object once", a->y_test->row == ntest && a->x_train->row == VC_NOBJ - ntest &&
+           a->y_train->row == VC_NOBJ - ntest && (ntest == 0 || (a->x_test->col == VC_XC && a->y_test->col == VC_NY)) &&
+           (ntest == VC_NOBJ || (a->x_train->col == VC_XC && a->y_train->col == VC_NY)));
+#ifndef VC_LAB
+  VC_CHECK("leave-one-out: exactly one object is held out", ntest == 1);
+#endif
+  int intest[GMAX] = {0}, intrain[GMAX] = {0};
+  size_t ids[GMAX];
+  for(size_t r = 0; r < ntest && r < GMAX; r++) {
+    size_t id = (size_t)a->x_test->data[r][0];
+    ids[r] = id;
+    VC_CHECK("held-out object is a valid object", id < VC_NOBJ);
+    if(id >= VC_NOBJ)
+      return;
+    VC_CHECK("every object is held out at most once", !seen[id]);
+    seen[id] = 1;
+    intest[id] = 1;
+    for(size_t k = 0; k < VC_XC; k++)
+      VC_CHECK("test x row is the held-out object's row", VC_SAME(a->x_test->data[r][k], xcell[id][k]));
+    for(size_t k = 0; k < VC_NY; k++)
+      VC_CHECK("test y row is the held-out object's response", VC_SAME(a->y_test->data[r][k], ycell[id][k]));
+#ifdef VC_LAB
+    VC_CHECK("k-fold: the held-out objects all carry the same user label", LAB[id] == LAB[ids[0]]);
+#endif
+  }
+#ifdef VC_LAB
+  if(ntest > 0) {
+    size_t same = 0;
+    for(size_t i = 0; i < VC_NOBJ; i++) if(LAB[i] == LAB[ids[0]]) same++;
+    VC_CHECK("k-fold: every object carrying that label is held out together", same == ntest);
+  }
+#endif
+  for(size_t l = 0; l < a->x_train->row && l < GMAX; l++) {
+    size_t src = (size_t)a->x_train->data[l][0];
+    VC_CHECK("training row is a valid object", src < VC_NOBJ);
+    if(src >= VC_NOBJ)
+      return;
+    VC_CHECK("training rows never contain a held-out object", !intest[src]);
+    VC_CHECK("training rows contain each other object once", !intrain[src]);
+    intrain[src] = 1;
     for(size_t k = 0; k < VC_XC; k++)
       VC_CHECK("training x rows are exactly the other objects (the held-out one is absent)", VC_SAME(a->x_train->data[l][k], xcell[src][k]));
     for(size_t k = 0; k < VC_NY; k++)
       VC_CHECK("training y rows are exactly the other objects' responses", VC_SAME(a->y_train->data[l][k], ycell[src][k]));
   }
-  /* learner contract: writes only its own prediction matrix */
+  /* learner contract: writes only its own prediction matrix, one row per held-out object */
   size_t pc = VC_NLV ? (size_t)VC_NY * (VC_NLV > VC_XC ? VC_XC : VC_NLV) : VC_NY;
-  VC_CHECK("prediction buffer has ny*nlv columns", a->y_test_predicted->row == 1 && a->y_test_predicted->col == pc);
-  for(size_t c = 0; c < a->y_test_predicted->col && c < GMAX; c++) {
-    pred[id][c] = oracle();
-    a->y_test_predicted->data[0][c] = pred[id][c];
-  }
+  if(a->y_test_predicted->row != ntest || a->y_test_predicted->col != pc)
+    ResizeMatrix(a->y_test_predicted, ntest, pc);
+  for(size_t r = 0; r < ntest && r < GMAX; r++)
+    for(size_t c = 0; c < pc && c < GMAX; c++) {
+      pred[ids[r]][c] = oracle();
+      a->y_test_predicted->data[r][c] = pred[ids[r]][c];
+    }
 }
 
 static matrix *in_matrix(size_t r, size_t c, double rec[GMAX][GMAX], int tag, int zero)
@@ -105,6 +137,41 @@ static matrix *in_matrix(size_t r, size_t c, double rec[GMAX][GMAX], int tag, in
     }
   return m;
 }
+
+#ifdef VC_LAB
+void h_KFoldCV(void)
+{
+#ifdef VC_ZERO_Y
+  int zy = 1;
+#else
+  int zy = 0;
+#endif
+  MX = in_matrix(VC_NOBJ, VC_XC, xcell, 1, 0);
+  MY = in_matrix(VC_NOBJ, VC_NY, ycell, 0, zy);
+  seen[0] = seen[1] = seen[2] = seen[3] = seen[4] = seen[5] = seen[6] = seen[7] = 0;
+  workers = 0;
+  uivector *groups;
+  NewUIVector(&groups, VC_NOBJ);
+  size_t maxlab = 0;
+  for(size_t i = 0; i < VC_NOBJ; i++) { groups->data[i] = LAB[i]; if(LAB[i] > maxlab) maxlab = LAB[i]; }
+  MODELINPUT in = initModelInput();
+  in.mx = MX; in.my = MY; in.nlv = VC_NLV; in.xautoscaling = 1; in.yautoscaling = 0;
+  matrix *py, *pr;
+  initMatrix(&py); initMatrix(&pr);
+  KFoldCV(&in, groups, VC_NLV ? _PLS_ : _MLR_, py, pr, VC_NTH, NULL, 0);
+  size_t pc = VC_NLV ? (size_t)VC_NY * (VC_NLV > VC_XC ? VC_XC : VC_NLV) : VC_NY;
+  VC_CHECK("k-fold: one model per label value up to the largest label (empty folds included)", workers == maxlab + 1);
+  VC_CHECK("k-fold: prediction table is n x ny*nlv", py->row == VC_NOBJ && py->col == pc && pr->row == VC_NOBJ && pr->col == pc);
+  for(size_t i = 0; i < VC_NOBJ; i++) {
+    VC_CHECK("k-fold: every object is held out exactly once (the folds are a partition)", seen[i] == 1);
+    for(size_t c = 0; c < pc; c++) {
+      VC_CHECK("k-fold: predicted_y[i] is the prediction of the model that did not see object i", VC_SAME(py->data[i][c], pred[i][c]));
+      VC_CHECK("k-fold: residual = prediction - matching observed response column", VC_SAME(pr->data[i][c], py->data[i][c] - ycell[i][c % VC_NY]));
+    }
+  }
+  VC_REACH();
+}
+#endif
 
 void h_LeaveOneOut(void)
 {
